@@ -16,6 +16,19 @@ global size_of usize == 8;
 //@@ include varspec.rs
 #[verifier::external_body]
 pub fn u32_to_be_bytes(x: u32) -> (r: [u8; 4]) ensures r@ == be32(x) { x.to_be_bytes() }
+pub open spec fn be64(x: u64) -> Seq<u8> {
+    seq![(x >> 56) as u8, ((x >> 48) & 0xff) as u8, ((x >> 40) & 0xff) as u8, ((x >> 32) & 0xff) as u8, ((x >> 24) & 0xff) as u8, ((x >> 16) & 0xff) as u8, ((x >> 8) & 0xff) as u8, (x & 0xff) as u8]
+}
+#[verifier::external_body]
+pub fn i64_to_be_bytes(x: i64) -> (r: [u8; 8]) ensures r@ == be64(x as u64) { x.to_be_bytes() }
+/// octets taken by a long / timestamp, by position
+pub open spec fn i64_size(t: Option<NonNativeType>, e: IsArrayElement, v: i64) -> int {
+    match e {
+        IsArrayElement::False => if t is None && -128 <= v <= 127 { 2 } else { 9 },
+        IsArrayElement::FirstElement => 9,
+        IsArrayElement::OtherElement => 8,
+    }
+}
 #[verifier::external_body]
 pub fn u8_to_be_bytes(x: u8) -> (r: [u8; 1]) ensures r@ == seq![x] { x.to_be_bytes() }
 /// str::len
@@ -92,6 +105,26 @@ impl Serializer {
         r is Ok && utf8(v@).len() <= 0xffff_ffff ==> added(*old(self), *final(self)).len() == var_size(old(self).is_array_elem, utf8(v@).len() as int),   // [C20.size.str-written] the number of octets written for a string/symbol, as a function of its octet length and position
 //@@ end
 
+//@@ fn file=serde_amqp/src/ser.rs impl=`~ser::Serializer for &'a mut Serializer<W>` name=serialize_i64
+//@@ selfmut
+//@@ ret Result<(), Error>
+//@@ subst `val.to_be_bytes()` => `i64_to_be_bytes(val)` rule=R14
+//@@ subst `v.to_be_bytes()` => `i64_to_be_bytes(v)` rule=R14
+//@@ spec
+    requires
+        old(self).non_native_type is None || old(self).non_native_type == Some(NonNativeType::Timestamp),
+    ensures
+        final(self).is_array_elem == old(self).is_array_elem,
+        r is Ok ==> appended(*old(self), *final(self)),
+        r is Ok && old(self).non_native_type is None && old(self).is_array_elem is False ==>
+            (-128 <= v <= 127 && added(*old(self), *final(self)) =~= seq![0x55u8, v as u8]) || added(*old(self), *final(self)) =~= seq![0x81u8] + be64(v as u64),   // [C05.long.encoding] long is smalllong (one octet, two's complement) when it fits, or 0x81 + 8 octets big-endian
+        r is Ok && old(self).non_native_type is None && !(old(self).is_array_elem is False) ==>
+            added(*old(self), *final(self)) =~= (if old(self).is_array_elem is FirstElement { seq![0x81u8] } else { Seq::<u8>::empty() }) + be64(v as u64),   // [C05.long.array-element]
+        r is Ok && old(self).non_native_type == Some(NonNativeType::Timestamp) ==>
+            added(*old(self), *final(self)) =~= (if old(self).is_array_elem is OtherElement { Seq::<u8>::empty() } else { seq![0x83u8] }) + be64(v as u64),   // [C05.timestamp.encoding] a timestamp is ALWAYS 0x83 + 8 octets (there is no short form)
+        r is Ok ==> added(*old(self), *final(self)).len() == i64_size(old(self).non_native_type, old(self).is_array_elem, v),   // [C20.size.i64-written]
+//@@ end
+
 //@@ fn file=serde_amqp/src/ser.rs impl=`~ser::Serializer for &'a mut Serializer<W>` name=serialize_bytes
 //@@ selfmut
 //@@ ret Result<(), Error>
@@ -137,6 +170,17 @@ impl SizeSerializer {
         r is Err ==> old(self).is_array_element is False && utf8(v@).len() > 0xffff_fffb,                    // [C20.size.str-refusal] refused exactly when the encoder refuses
 //@@ end
 
+//@@ fn file=serde_amqp/src/size_ser.rs impl=`~ser::Serializer for &'a mut SizeSerializer` name=serialize_i64 as=size_i64
+//@@ selfmut
+//@@ ret Result<usize, Error>
+//@@ subst `unreachable!("serialize_i64 is only used for Long and Timestamp")` => `unreachable!()` rule=R9
+//@@ spec
+    requires
+        old(self).non_native_type is None || old(self).non_native_type == Some(NonNativeType::Timestamp),
+    ensures
+        r is Ok && r->Ok_0 == i64_size(old(self).non_native_type, old(self).is_array_element, v),              // [C20.size.i64] serialized_size of a long / timestamp == the number of octets the encoder writes for it
+//@@ end
+
 //@@ fn file=serde_amqp/src/size_ser.rs impl=`~ser::Serializer for &'a mut SizeSerializer` name=serialize_bytes as=size_bytes
 //@@ selfmut
 //@@ ret Result<usize, Error>
@@ -150,6 +194,32 @@ impl SizeSerializer {
         r is Ok && old(self).non_native_type == Some(NonNativeType::LazyValue) ==> r->Ok_0 == v@.len(),                     // [C20.size.lazy]
         r is Ok && !(old(self).non_native_type is None) && !(old(self).non_native_type == Some(NonNativeType::LazyValue))
             ==> r->Ok_0 == v@.len() + (if old(self).is_array_element is OtherElement { 0int } else { 1int }),                 // [C20.size.fixed-as-bytes] uuid / decimals: constructor (once per array) + the bytes
+//@@ end
+}
+
+// ================================================================ the value-tree serializer (value/ser.rs): same marker discipline
+pub struct ValueSerializer { pub non_native_type: Option<NonNativeType> }
+/// the part of `Value` these functions build
+pub enum Value { String(String), Symbol(SymbolS), Other }
+pub struct SymbolS { pub s: Ghost<Seq<char>> }
+#[verifier::external_body]
+pub fn string_from(v: &str) -> (r: String) ensures r@ == v@ { unimplemented!() }
+#[verifier::external_body]
+pub fn symbol_from(v: &str) -> (r: SymbolS) ensures r.s@ == v@ { unimplemented!() }
+pub enum VError { InvalidValue, Other }
+impl ValueSerializer {
+//@@ fn file=serde_amqp/src/value/ser.rs impl=`~ser::Serializer for &'a mut Serializer` name=serialize_str as=value_serialize_str
+//@@ selfmut
+//@@ ret Result<Value, VError>
+//@@ subst `String::from(v)` => `string_from(v)` rule=R16
+//@@ subst `Symbol::from(v)` => `symbol_from(v)` rule=R16
+//@@ subst `Error::InvalidValue` => `VError::InvalidValue` rule=R11
+//@@ spec
+    ensures
+        r is Ok ==> final(self).non_native_type is None,                                                      // [C20.value.marker-cleared] to_value: the symbol marker is one-shot, the next string (e.g. the value of a map entry with a symbol key) stays a string -- as it does when going through bytes
+        r is Ok && old(self).non_native_type is None ==> r->Ok_0 is String && r->Ok_0->String_0@ == v@,      // [C20.value.str]
+        r is Ok && is_symbol(old(self).non_native_type) ==> r->Ok_0 is Symbol && r->Ok_0->Symbol_0.s@ == v@,  // [C20.value.symbol]
+        r is Ok ==> old(self).non_native_type is None || is_symbol(old(self).non_native_type),
 //@@ end
 }
 
